@@ -77,6 +77,29 @@ func (bp BundlePart) storeBundle(b bpv7.Bundle) error {
 	}
 }
 
+// replaceBundle overwrites the serialized Bundle on the disk. The new serialization is written to a temporary file
+// first, so that the old one is kept if this fails.
+func (bp BundlePart) replaceBundle(b bpv7.Bundle) error {
+	tmpFilename := bp.Filename + ".tmp"
+
+	f, err := os.OpenFile(tmpFilename, os.O_WRONLY|os.O_CREATE|os.O_TRUNC, 0600)
+	if err != nil {
+		return err
+	}
+
+	if err = b.WriteBundle(f); err != nil {
+		_ = f.Close()
+	} else {
+		err = f.Close()
+	}
+	if err != nil {
+		_ = os.Remove(tmpFilename)
+		return err
+	}
+
+	return os.Rename(tmpFilename, bp.Filename)
+}
+
 // deleteBundle removes the serialized Bundle from the disk.
 func (bp BundlePart) deleteBundle() error {
 	return os.Remove(bp.Filename)
